@@ -1,7 +1,7 @@
 #!/bin/sh
 # tools/run_all.sh [tier] [seed]  - run every property's check sequentially on the current /repo tree
 TIER="${1:-quick}"; SEED="${2:-1}"
-cd /verif
+cd "$(dirname "$0")/.."
 for f in props/C*.json; do
   P=$(basename "$f" .json)
   S=$(date +%s)
